@@ -13,7 +13,7 @@ ASSUMPTIONS = [
 
 
 def tasks(tier):
-    return [N.NegAcceptorTask("C10/"), N.RoleTableTask("C10/")]
+    return [N.NegAcceptorTask("C10/"), N.RoleTableTask("C10/"), N.NegUnrestrictedTask("C10/")]
 
 
 def replay(rec):
@@ -27,4 +27,5 @@ LEVEL_TEXT = ("negotiate_as_acceptor is verified by induction over the proposed 
               "PS3.7 role function for all 6x9 proposal/setting pairs; replies never raise a role. SCP_SCU_ROLES is compared cell by cell.")
 LEVEL_NOTE = "trusted: pyvc, z3 (UF + quantified invariant), spec/roles.py, sorted() contract. Unrestricted-storage mode: see NOT_DECIDED."
 TECHNIQUE = "deductive: inductive loop contracts on negotiate_as_acceptor (AST->VC, z3 UF/quantifiers) + exhaustive role-table comparison"
-NOT_DECIDED = ["negotiate_unrestricted (storage-like contexts accepted with the first proposed syntax) is not yet under contract"]
+NOT_DECIDED = ["which abstract syntaxes count as storage-like in unrestricted mode (pydicom UID.is_private / keyword tables) is opaque: "
+               "every proposed context may be classified either way"]
